@@ -40,7 +40,91 @@ DOC_OPTS = [('graceful_timeout', ['0.2', '0.5', '1']), ('warmup_delay', ['0', '1
 
 def plan(tier, seed):
     n = 700 if tier == 'quick' else 20000
-    return [{'seed': seed, 'idx': i} for i in range(n)]
+    return ([{'seed': seed, 'idx': i} for i in range(n)] +
+            [{'kind': 'live', 'seed': seed, 'idx': i} for i in range(3 if tier == 'quick' else 15)])
+
+
+CASE_TIMEOUT = 120
+
+
+def live_case(spec, res):
+    """reloadconfig on a real circusd started the way it is started in production: with command-line options next to
+    the configuration file (they are not in the file, and must not make the file look changed)"""
+    import re
+    import time
+    from vlib import live
+    rnd = rng_for(spec['seed'], 'C12-live', spec['idx'])
+    cli = [[], ['--log-level', 'debug'], ['--log-output', '@DIR@/daemon.log'],
+           ['--log-level', 'warning', '--log-output', '@DIR@/daemon.log']][spec['idx'] % 4]
+    in_file = rnd.choice(['', 'loglevel = info\n', 'debug = False\n'])
+    d = live.Daemon('', strace=False, args=cli)
+    np1 = rnd.choice([1, 2])
+
+    def text(np_b, third, extra_opt):
+        t = d.header(check_delay=0.5, extra=in_file)
+        for name, np_, opt in (('wa', 2, ''), ('wb', np_b, extra_opt)):
+            t += ('[watcher:%s]\ncmd = %s\nnumprocesses = %d\ngraceful_timeout = 0.5\ncopy_env = True\n%s\n'
+                  % (name, live.worker_cmd({'log': '@LOG@', 'tagw': name}), np_, opt))
+        if third:
+            t += ('[watcher:wc]\ncmd = %s\nnumprocesses = 1\ngraceful_timeout = 0.5\ncopy_env = True\n\n'
+                  % live.worker_cmd({'log': '@LOG@', 'tagw': 'wc'}))
+        return t.replace('@DIR@', d.dir).replace('@LOG@', d.logdir)
+
+    def table():
+        out = {}
+        for pid, state, stt in d.children():
+            try:
+                cmd = open('/proc/%d/cmdline' % pid, 'rb').read().decode('utf8', 'replace')
+            except OSError:
+                continue
+            m = re.search(r'"tagw": "(\w+)"', cmd)
+            if m and state != 'Z':
+                out.setdefault(m.group(1), set()).add(pid)
+        return out
+    d.ini = text(np1, False, '')
+    with open(d.ini_path, 'w') as f:
+        f.write(d.ini)
+    try:
+        d.start()
+        if not d.wait_ready(20) or not d.workers_up(2 + np1, 20):
+            res.inconclusive.append('live: daemon not ready: ' + d.output()[-200:])
+            return
+        t0 = table()
+        # (1) the file has not changed at all
+        r = d.call('reloadconfig', waiting=True, timeout=30)
+        time.sleep(0.7)
+        t1 = table()
+        res.obs['live_reloadconfig_judged'] += 1
+        if r.get('status') != 'ok':
+            res.violation('C12/live:reloadconfig-failed', 'reloadconfig of an unchanged file answered %s (command line %s)'
+                          % (str(r)[:120], cli))
+            return
+        if t1 != t0:
+            res.violation('C12/live:unchanged-file-disturbed-workers',
+                          'reloadconfig of an unchanged file (circusd started with %s) replaced workers: before %s, after %s'
+                          % (cli or 'no option', t0, t1))
+            return
+        # (2) one watcher edited (numprocesses, or an option), one added: only those change
+        kind = rnd.choice(['numprocesses', 'option'])
+        with open(d.ini_path, 'w') as f:
+            f.write(text(np1 + 1 if kind == 'numprocesses' else np1, True, 'max_retry = 7\n' if kind == 'option' else ''))
+        r = d.call('reloadconfig', waiting=True, timeout=30)
+        time.sleep(1.2)
+        t2 = table()
+        res.obs['live_reloadconfig_judged'] += 1
+        want_b = np1 + 1 if kind == 'numprocesses' else np1
+        if r.get('status') != 'ok':
+            res.violation('C12/live:reloadconfig-failed', 'reloadconfig answered %s' % str(r)[:120])
+        elif t2.get('wa') != t0.get('wa'):
+            res.violation('C12/live:unchanged-watcher-disturbed', 'watcher wa was not edited, its workers changed from %s to %s '
+                          '(edit: %s of wb, wc added; command line %s)' % (t0.get('wa'), t2.get('wa'), kind, cli))
+        elif len(t2.get('wb', ())) != want_b or len(t2.get('wc', ())) != 1:
+            res.violation('C12/live:file-not-applied', 'after the edit (%s of wb -> %d, wc added) the daemon runs %s '
+                          '(command line %s)' % (kind, want_b, {k: len(v) for k, v in t2.items()}, cli))
+        res.nontrivial(repr(('live', tuple(cli), in_file, kind)))
+        res.sample = res.sample or {'live': True, 'command_line': cli, 'edit': kind}
+    finally:
+        d.cleanup()
 
 
 def render(model):
@@ -155,6 +239,11 @@ def edit(rnd, m, history):
 
 def run_case(spec):
     res = CaseResult()
+    if spec.get('kind') == 'live':
+        live_case(spec, res)
+        for v in res.viol:
+            v['spec'] = spec
+        return res
     if 'versions' in spec:
         versions = spec['versions']
     else:
